@@ -471,6 +471,7 @@ class SyncService(Service):
         self.fail = fail
         self.bad_id = bad_id       # None or dict(at=..., id=4 bytes) : answer with a (known) record id that is not valid at that point
         self.truncate_recv = None
+        self.truncate_reply = None
         self.buf = SymBytes()
         self.cur = None            # current push: [pathmode, chunks, mtime]
         self.failed = False
@@ -479,7 +480,17 @@ class SyncService(Service):
         self.stream_wrtes = 0
 
     def reply(self, s, data, kind):
-        for piece in self.packetize(as_sym(data), kind):
+        data = as_sym(data)
+        if self.truncate_reply is not None and kind in ('LIST', 'STAT', 'RECV'):
+            # the device stops in the middle of its reply (then stays silent, or closes the stream)
+            n, then = self.truncate_reply
+            self.truncate_reply = None
+            for piece in self.packetize(data[:n], kind):
+                s.wrte(piece, tag=kind)
+            if then == 'clse':
+                s.clse(tag='abort')
+            return
+        for piece in self.packetize(data, kind):
             s.wrte(piece, tag=kind)
 
     def _fail_now(self, s, where):
